@@ -73,10 +73,6 @@ Definition get (g : grid) (x y : Z) : res str :=
 Definition width (g : grid) : res Z := if 0 <? len g then do r <- index g 0; Ok (len r) else Ok 0.
 Definition height (g : grid) : Z := len g.
 
-(* UTF-8 length of a rune: the index variable of  for i, ch := range line  advances by it *)
-Definition rune_len (r : rune) : Z :=
-  if (r <? 128)%N then 1 else if (r <? 2048)%N then 2 else if (r <? 65536)%N then 3 else 4.
-
 (* strings.Split(label, "\n") *)
 Fixpoint split_lines (s : str) (cur : str) : list str :=
   match s with
@@ -84,10 +80,22 @@ Fixpoint split_lines (s : str) (cur : str) : list str :=
   | c :: t => if (c =? 10)%N then rev cur :: split_lines t [] else split_lines t (c :: cur)
   end.
 
+(* one cell per rune:  col := 0; for _, ch := range line { c.Set(x+col, ..); col++ }   (since c3c83ee52) *)
 Fixpoint draw_line (g : grid) (x y : Z) (off : Z) (line : str) : res grid :=
   match line with
   | [] => Ok g
-  | ch :: t => do g' <- set g (x + off) y [ch]; draw_line g' x y (off + rune_len ch) t
+  | ch :: t => do g' <- set g (x + off) y [ch]; draw_line g' x y (off + 1) t
+  end.
+
+(* HISTORICAL (before c3c83ee52):  for i, ch := range line { c.Set(x+i, ..) }  - the index of a range
+   loop over a string is a byte offset, so the column advanced by the UTF-8 length of each rune.
+   Kept for the refutation theorem that documents the repaired defect. *)
+Definition rune_len (r : rune) : Z :=
+  if (r <? 128)%N then 1 else if (r <? 2048)%N then 2 else if (r <? 65536)%N then 3 else 4.
+Fixpoint draw_line_pinned (g : grid) (x y : Z) (off : Z) (line : str) : res grid :=
+  match line with
+  | [] => Ok g
+  | ch :: t => do g' <- set g (x + off) y [ch]; draw_line_pinned g' x y (off + rune_len ch) t
   end.
 
 Fixpoint draw_lines (g : grid) (x y : Z) (idx : Z) (lines : list str) : res grid :=
